@@ -78,7 +78,10 @@ class PickupManager:
         """
         manager = cls(optic)
         for pickup_data in data:
-            manager.add(**pickup_data)
+            # the saved prescription already holds the picked-up values;
+            # re-applying them here would alter it (rounding, or a target
+            # edited after the last update)
+            manager.pickups.append(Pickup(optic, **pickup_data))
         return manager
 
 
